@@ -561,6 +561,20 @@ def run(ctx, only_entry=False):
                     if not g.child_alts(b)[0] else True
                 chk.ob("grammar/prefix-order/%s-%s" % (a, b), ok,
                        "an instruction whose mnemonic is a prefix of a later one does not capture it", "grammar rule instruction", "")
+    # the header is a line of its own: after '#! mrasm' (one optional blank, an optional comment) the line ends
+    bad_hdr = []
+    for text, want in (("#! mrasm", True), ("#! mrasm\n", True), ("#! mrasm\nNOP", True), ("#! mrasm ; c\nNOP", True),
+                       ("#! mrasm;c\n", True), ("#! mrasm \nNOP\n", True),
+                       ("#! mrasm STOP\n", False), ("#! mrasmSTOP\n", False), ("#! mrasm MAIN:\n JR MAIN", False),
+                       ("#! mrasm  \nNOP", False), ("#! mrasmINC R0\n", False), ("#! mrasm NOP", False),
+                       ("#! mrasm x\n", False), ("#!mrasm\n", False), (" #! mrasm\n", False), ("NOP\n", False)):
+        m_ = g.match_rule("file", text)
+        got = m_ is not None and m_[0] == len(text)
+        if got != want:
+            bad_hdr.append("%r is %s" % (text, "accepted" if got else "rejected"))
+    chk.ob("grammar/header-line", not bad_hdr,
+           "the first line is the header and nothing else: an instruction, a label or a second blank after '#! mrasm' is rejected",
+           "grammar rules file/header", "; ".join(bad_hdr[:4]) or "16 texts", "PEG matching of header variants against the grammar file")
     # a label line is a label line whatever the name looks like: every name the rule raw_label accepts - in particular names
     # that begin with a mnemonic, a register or a directive word - is accepted as `name:` and read as a label (under ordered
     # choice an alternative tried earlier must not commit to a keyword prefix of the name)
